@@ -6,6 +6,10 @@ proof gate (coq/Props/C11.v: MPO.__add__, dagger, plus_identity on the automaton
   make_U_I (stream c11_make_U_I): W grid / IdL / IdR / chi of H.make_U_I(dt) for Gaussian-integer dt against the graded
   automaton model (Model/PropUI.v, checker Model/PropUICheck.v), exactly, inside Coq
 + oracle: every operation against the dense operators / vectors (independent numpy code).
++ coverage audit (harness/c11_ext.py, runner harness/impl/c11x_impl.py): streams ext_chain / ext_ctor / ext_evo / ext_iapply / ext_ienv /
+  ext_opts reach the remaining public functions, documented options and branches of tenpy.networks.mpo and tenpy.algorithms.mpo_evolution;
+  the evidence holds the table item x option -> calls / stream (C11_api_coverage by reflection on the source + a call counter in the
+  runner, C11_option_coverage); a public name that is neither covered nor classified is a correspondence failure.
 """
 import copy
 import os
@@ -1313,17 +1317,24 @@ def main(ctx):
     cases += [gen_propagator2(prng, i) for i in range(n_prop2)]
     hrng = _random.Random(ctx.seed * 6007 + 2222)           # (own generator again: the draws of the results stream are unchanged)
     cases += [gen_results(rrng, i, hrng) for i in range(n_res)]
+    import c11_ext
+    if not (ctx.replay_in and n_alg == 0):
+        xrng = _random.Random(ctx.seed * 9173 + 4444)      # (own generator: the draws of the streams above are unchanged)
+        cases += c11_ext.ext_cases(ctx, xrng, 1.0 if ctx.proof.ok else 1.5)
     nchunk = common.NPROC
     order = list(range(len(cases)))
     chunks = [order[i::nchunk] for i in range(nchunk)]
     res = common.run_impl_parallel('c11_impl.py', [{'cases': [cases[i] for i in ch]} for ch in chunks if ch], timeout=1500)
     results = [None] * len(cases)
+    api_calls = {}
     for ch, (r, err) in zip([c for c in chunks if c], res):
         if err:
             ctx.fail('correspondence', 'implementation runner failed: ' + err[-600:], None)
             continue
         for i, x in zip(ch, r):
             results[i] = x
+            for k_, v_ in (x.pop('api_calls', None) or {}).items():
+                api_calls[k_] = api_calls.get(k_, 0) + v_
     coq = {'add': [], 'dagger': [], 'plus_id': [], 'denote': [], 'ui': []}
     for case, r in zip(cases, results):
         if r is None:
@@ -1337,6 +1348,8 @@ def main(ctx):
                 check_ui(ctx, case, r, coq)
             elif case['kind'] == 'results':
                 check_results(ctx, case, r)
+            elif case['kind'] == 'ext':
+                c11_ext.check_ext(ctx, case, r)
             else:
                 check_propagator(ctx, case, r)
         except Exception:
@@ -1373,6 +1386,8 @@ def main(ctx):
             ctx.count(name, [name, i, lits[i][:200]], nontrivial=True)
         total += len(lits)
     ctx.cov['traces_validated_against_impl'] = total
+    if not ctx.replay_in:
+        c11_ext.coverage_report(ctx, api_calls)
     ctx.assumptions += [
         'C11 results stream: a claimed max_range is checked as an upper bound of the true range (None / inf always admissible); the differing / '
         'non-Hermitian coupling always lies inside the sites range(3 L) that is_equal documents for an unknown range; to_TermList is compared after '
@@ -1407,4 +1422,20 @@ RULE = ('algebra: finite MPOs (L <= 5; spin-1/2, fermions; with/without charges)
         'itself, P + Q and Q + P; '
         'propagator: make_U_I / make_U_II at dt, dt/2, dt/4 of finite chains (single graph; sum A + B of MPO.__add__; negative IdR markers; whole '
         'chain and a sub-window between the markers of inner bonds) and of infinite MPOs on a window; c11_make_U_I: finite H (L <= 5, term lists / explicit graphs in and out of '
-        'standard sum form, exact strengths, permuted virtual indices) x Gaussian-integer dt; non-trivial when the operator is not zero.')
+        'standard sum form, exact strengths, permuted virtual indices) x Gaussian-integer dt; non-trivial when the operator is not zero. '
+        'ext_chain: finite / infinite MPOs (graph, sum, negative IdR; max_range known / None / inf; explicit_plus_hc) through random sequences of '
+        'sort_legcharges / dagger / + / self + self / plus_identity / from_Wflat / set_W / copy-then-mutate and the structural steps group_sites '
+        '(n = 2, 3, with remainder, explicit grouped sites) / enlarge_mps_unit_cell / extract_segment, every RESULT an operand of the next step: dense operator '
+        'and claimed max_range after every step, then is_equal / overlap / distance (explicit and default window, eps / max_range options) against '
+        'an independently built partner (same / one coefficient changed; mixed flags), is_hermitian, expectation values and variance (exp_val '
+        'given) in grouped states, to_TermList options, make_U of the result, apply by every compression method (naive, SVD, zip_up with m_temp / '
+        'trunc_weight / no svd_min, apply_zipup, variational, variationalQR), MPOEnvironment with bra != ket and LHeff / RHeff; ext_ctor: '
+        'from_wavepacket (fermionic / bosonic op, coefficients below eps incl. the first, eps option; dagger, sums, apply, overlap, prefactor), '
+        'from_grids (entry kinds str / Array / list, scalar markers, bc infinite with charges, Ws_qtotal single / per site, legs, explicit_plus_hc), '
+        'from_Wflat (permute True / False, charges, dtype); ext_evo: ExpMPOEvolution approximation I / II / default x order 1 / 2 / default x '
+        'compression method, two runs (cached propagator) and a run with a new dt, against exp(-i t H)|psi> at dt and dt / 2; ext_iapply: exact gate layers '
+        'given as infinite MPOs by from_grids applied to product iMPS by SVD / apply_naively / variational compression, local observables against '
+        'the exact light cone; ext_ienv: entangled iMPS: expectation_value / _TM / _power against the reduced density matrix, MPOEnvironment with '
+        'force_init_method iter / TM / None / start_env_sites, MPOTransferMatrix.find_init_LP_RP (calc_E, guess, both gauges), '
+        'MPOEnvironmentBuilder energies; ext_opts: exponentially decaying iMPO from grids (TM for max_range None / inf, power method incl. the '
+        'tolerance warning, to_TermList max_range / cutoff / start, prefactor), eps options of is_equal / is_hermitian, 24 documented refusals.')
